@@ -7,7 +7,7 @@ rsync -a --exclude .git /repo/ $d/repo/
 cp /verif/known_findings.json /verif/anchors.json /verif/fields.json $d/verif/
 (cd $d/repo && patch -p1 -s --no-backup-if-mismatch < /verif/seeded/$id/patch.diff) || { echo "does not apply"; rm -rf $d; exit 3; }
 for p in $props; do
-  echo "--- single $p"; GOGC=off bin/ndndcheck -prop $p -tier quick -repo $d/repo -verif $d/verif 2>&1 | grep -E "^(VIOLATION|UNDECIDED): " | cut -c1-${W:-300}
+  echo "--- single $p"; GOGC=off ${BIN:-bin/ndndcheck} -prop $p -tier quick -repo $d/repo -verif $d/verif 2>&1 | grep -E "^(VIOLATION|UNDECIDED): " | cut -c1-${W:-300}
 done
-echo "--- sweep"; GOGC=off bin/ndndcheck -sweep all -repo $d/repo -verif $d/verif 2>&1 | grep -E "^(VIOLATION|UNDECIDED): " | cut -c1-${W:-300}
+echo "--- sweep"; GOGC=off ${BIN:-bin/ndndcheck} -sweep all -repo $d/repo -verif $d/verif 2>&1 | grep -E "^(VIOLATION|UNDECIDED): " | cut -c1-${W:-300}
 rm -rf $d
